@@ -236,6 +236,28 @@ def C12():
                 outside=["read_*_pdu recognisers", "byte-level PDU sequences"])
 
 
+def C16():
+    jobs = [
+        Kani("c16_rc4_twin", "vacuity twin", expect="fail", fail_desc="twin reached", timeout=600, mem_gb=8),
+        Kani("c16_rc4_step", "Rc4::next from an arbitrary state (i, j, S[256]): keystream byte, index update and swap equal the RC4 reference step; no other entry of S changes", bounds={"state": "any 256-byte S, any i, j"},
+             symbolic=["i", "j", "S[256]", "probe index"], functions=["nla::rc4::Rc4::next"], timeout=900, mem_gb=8),
+        Kani("c16_rc4_process_carries_state", "Rc4::process: output = input xor keystream; processing a then b equals processing a||b from any state (cipher state carries over between messages)", bounds={"bytes": 3, "state": "arbitrary"},
+             symbolic=["i", "j", "S[256]", "3 data bytes"], functions=["nla::rc4::Rc4::process", "nla::rc4::Rc4::next"], timeout=1200, mem_gb=10),
+        MirJob("c16_mir_keys", "sign_key/seal_key use the client-to-server constants for the client role and server-to-client for the peer; build_security_interface wires encrypt=client sealing key, decrypt=server sealing key, signing=client signing key, verify=server signing key", mirjobs.ntlm_keys),
+        MirJob("c16_mir_unwrap_order", "gss_unwrapex: RC4-decrypts the payload then the checksum with the decrypt cipher (keystream order), computes HMAC-MD5(verify_key, seq_num || plaintext), compares the first 8 bytes, returns the plaintext only on the match edge and Err(InvalidChecksum) on the mismatch edge",
+               mirjobs.unwrap_order),
+        MirJob("c16_mir_wrap_order", "gss_wrapex/mac: encrypts the data, then the first 8 bytes of HMAC-MD5(signing_key, seq_num || data) with the same cipher, emits version 1 / checksum / seq_num followed by the ciphertext and increments seq_num once", mirjobs.wrap_order),
+    ]
+    return Prop("C16", [("nla/rc4.rs", "rc4.rs")], jobs,
+                assumptions=[S6, DEV, "RC4 key schedule (Rc4::new) is not executed: states are arbitrary, which over-approximates the reachable ones",
+                             "md5 / hmac-md5 crates are third-party (pinned by the repo's vector tests)"],
+                text="RC4 keystream generation decided for every cipher state by bounded model checking of the real Rc4::next/process; key derivation roles and the order of operations of sealing/unsealing (which cipher, which key, what is compared, which edge returns plaintext) decided on the MIR of sign_key/seal_key/build_security_interface/gss_unwrapex/gss_wrapex/mac.",
+                note="NOT covered: executing gss_unwrapex/gss_wrapex on bytes (CBMC out of memory, gate G6 failed again), hence round-trip and tamper-rejection are decided structurally (comparison present, polarity, operands, only-through-match-edge), not over all bit flips; RC4 key schedule; HMAC/MD5.",
+                technique="Kani/CBMC bounded model checking (SAT) of the RC4 step over arbitrary states; MIR reachability/path enumeration (z3) of the sealing and unsealing routines",
+                design_ref="DESIGN.md §4 C16",
+                outside=["byte-level sealing round trips and exhaustive tamper rejection", "Rc4::new key schedule", "hmac / md-5 crates"])
+
+
 def C17():
     jobs = [
         MirJob("c17_mir_cssp_restricted", "cssp_connect: in restricted admin mode TSCredentials is built from three fresh empty vectors and no credential accessor is called; otherwise from get_domain_name/get_user_name/get_password in that order", mirjobs.cssp_restricted),
@@ -338,9 +360,9 @@ def C18():
                 outside=["records with size-dependent or skippable fields (Component::read/write with MessageOption::Size/SkipField: CBMC does not finish)", "nested containers", "BER/DER (yasna) structures", "GCC conference blocks", "Version::from table (known finding D14 is checked by c18_mir_version_table)"])
 
 
-PROPS = {"C01": C01, "C02": C02, "C05": C05, "C06": C06, "C07": C07, "C08": C08, "C09": C09, "C12": C12, "C13": C13, "C14": C14, "C17": C17, "C18": C18, "C19": C19}
+PROPS = {"C01": C01, "C02": C02, "C05": C05, "C06": C06, "C07": C07, "C08": C08, "C09": C09, "C12": C12, "C13": C13, "C14": C14, "C16": C16, "C17": C17, "C18": C18, "C19": C19}
 
-MIR_PROPS = ["C01", "C02", "C05", "C06", "C07", "C08", "C12", "C13", "C14", "C17"]
+MIR_PROPS = ["C01", "C02", "C05", "C06", "C07", "C08", "C12", "C13", "C14", "C16", "C17"]
 
 _TODO = "not claimed yet: machinery for this property is still being built (see DESIGN.md §4 for the plan)"
 NOT_APPLICABLE = {
@@ -350,5 +372,5 @@ NOT_APPLICABLE = {
     "C15": "CHALLENGE -> AUTHENTICATE needs read_target_info (size idiom) and a 25-field emitter with three to_vec calls; neither is executable by the solver-based engines here",
     "C20": "thread interleavings, select(2) and OpenSSL record buffering are concurrency + FFI; Kani does not model them and no sequential kernel implies the property",
 }
-for _p in ["C04", "C16"]:
+for _p in ["C04"]:
     NOT_APPLICABLE.setdefault(_p, _TODO)
